@@ -34,8 +34,18 @@ def check_poly(e, ty, ncoef, label, funcs, lanes_up_to=None):
     wt["x"] = x
 
     def replay(model, ob):
-        vals = [float(model_value(model, c) or 0) for c in cs] + [float(model_value(model, x) or 0)]
-        return replay_eval(e, ty, vals, ob)
+        import math
+        cv = [float(model_value(model, c) or 0) for c in cs]
+        xf = float(model_value(model, x) or 0)
+        # the real model is rounded to binary64; a model that sits just beyond a threshold of the code (|x| > 1e38 as a real)
+        # can round onto the threshold itself, so the float neighbours away from zero and a slightly larger magnitude are tried too
+        cands = [xf, math.nextafter(xf, math.copysign(math.inf, xf)), xf * (1.0 + 2.0 ** -20), xf * 1.25]
+        last = None
+        for xc in cands:
+            last = replay_eval(e, ty, cv + [xc], ob)
+            if last[0]:
+                return last
+        return last
 
     # counterexamples are preferred inside the property's proviso (no partial term overflows or underflows in binary64): the real
     # encoding has no overflow, so an unconstrained model of a deviation that only exists for |x| > 1e38 may sit at 1e100, where the
